@@ -2,7 +2,7 @@ import PhyModel.Proofs.PlacementIdx
 import Mathlib.Tactic.NormNum
 /-! A concrete instance satisfying the hypotheses of C19 `weights_positive` (non-vacuity). -/
 namespace PhyModel.Props.C19
-open PhyModel
+open PhyModel PhyModel.C19P
 
 /-- the hypotheses are satisfiable: two data points on a 2-point grid, outlier prior 1/2, parent
 state "data point 0 in one clone", placing data point 1 -/
